@@ -39,7 +39,7 @@ Proof.
 Qed.
 
 (** ---------- one symbol record ---------- *)
-Definition naux_of (e : sym_entry) : Z := match se_aux e with Some _ => 1 | None => 0 end.
+Definition naux_of (e : sym_entry) : Z := naux e.
 Definition aux_of (e : sym_entry) : list byte := match se_aux e with Some a => a | None => [] end.
 
 Lemma zlen_cons {A} (x : A) l : zlen (x :: l) = 1 + zlen l.
@@ -62,9 +62,10 @@ Proof.
   assert (Hv : zlen v = 4) by (unfold v; rewrite zlen_le; reflexivity).
   assert (Hsc : zlen sc = 2) by (unfold sc; rewrite zlen_le; reflexivity).
   assert (Hty : zlen ty = 2) by (unfold ty; rewrite zlen_le; reflexivity).
-  fold (naux_of e) in Hf. fold (aux_of e) in Hf.
+  change (match se_aux e with Some a => zlen a / 18 | None => 0 end) with (naux_of e) in Hf. fold (aux_of e) in Hf.
   assert (Hal : zlen (aux_of e) = 18 * naux_of e).
-  { unfold aux_of, naux_of. destruct (se_aux e); [unfold zlen; rewrite Ha|]; reflexivity. }
+  { unfold aux_of, naux_of, naux. destruct (se_aux e) as [a|]; [|reflexivity].
+    destruct Ha as [Hm _]. pose proof (Z.div_mod (zlen a) 18 ltac:(lia)) as Hd. rewrite Hm in Hd. lia. }
   repeat split.
   - apply (slice_at' f pre nm (v ++ sc ++ ty ++ [se_class e mod 256] ++ [naux_of e] ++ aux_of e ++ post)); auto.
     rewrite Hf. rewrite <- !app_assoc. reflexivity.
@@ -100,7 +101,10 @@ Lemma nrecords_cons e r : nrecords (e :: r) = nrecords r + 1 + naux_of e.
 Proof. reflexivity. Qed.
 
 Lemma nrecords_nonneg es : 0 <= nrecords es.
-Proof. induction es as [|e r IH]; [unfold nrecords; cbn [fold_right]; lia|]. rewrite nrecords_cons. unfold naux_of. destruct (se_aux e); lia. Qed.
+Proof.
+  induction es as [|e r IH]; [unfold nrecords; cbn [fold_right]; lia|]. rewrite nrecords_cons. unfold naux_of, naux.
+  destruct (se_aux e) as [a|]; [|lia]. pose proof (Z.div_pos (zlen a) 18 (zlen_nonneg a) ltac:(lia)). lia.
+Qed.
 
 Lemma nrecords_app a b : nrecords (a ++ b) = nrecords a + nrecords b.
 Proof. induction a as [|e r IH]; [unfold nrecords at 2; cbn [app fold_right]; lia|]. cbn [app]. rewrite !nrecords_cons, IH. lia. Qed.
@@ -119,14 +123,15 @@ Proof.
     destruct (read_record _ pre e (flat_map pack_sym r ++ post) Hf He) as [R1 [R2 [R3 [R4 [R5 [R6 R7]]]]]].
     cbn [read_symbols]. rewrite nrecords_cons.
     pose proof (nrecords_nonneg r) as Hnn.
-    assert (Hna : 0 <= naux_of e <= 1) by (unfold naux_of; destruct (se_aux e); lia).
+    assert (Hna : 0 <= naux_of e).
+    { unfold naux_of, naux. destruct (se_aux e) as [a|]; [|lia]. apply Z.div_pos; [apply zlen_nonneg | lia]. }
     replace (nrecords r + 1 + naux_of e =? 0) with false by (symmetry; apply Z.eqb_neq; lia).
     rewrite R1, R2, R3, R4, R5, R6.
     replace (nrecords r + 1 + naux_of e <? 1 + naux_of e) with false by (symmetry; apply Z.ltb_ge; lia).
     rewrite R7, (Hres e (or_introl eq_refl)).
     replace (nrecords r + 1 + naux_of e - 1 - naux_of e) with (nrecords r) by lia.
     assert (Hlen : zlen pre + 18 * (1 + naux_of e) = zlen (pre ++ pack_sym e)).
-    { rewrite zlen_app. destruct He as [Hn Ha]. rewrite (pack_sym_length e Hn Ha). unfold naux_of. destruct (se_aux e); lia. }
+    { rewrite zlen_app. destruct He as [Hn Ha]. rewrite (pack_sym_length e Hn Ha). unfold naux_of. lia. }
     rewrite Hlen.
     rewrite (IH (pre ++ pack_sym e) post k).
     + cbn [map]. reflexivity.
@@ -356,7 +361,8 @@ Qed.
 Lemma nrecords_ge_length es : Z.of_nat (Datatypes.length es) <= nrecords es.
 Proof.
   induction es as [|e r IH]; [unfold nrecords; cbn; lia|].
-  rewrite nrecords_cons. cbn [Datatypes.length]. unfold naux_of. destruct (se_aux e); lia.
+  rewrite nrecords_cons. cbn [Datatypes.length]. unfold naux_of, naux.
+  destruct (se_aux e) as [a|]; [|lia]. pose proof (Z.div_pos (zlen a) 18 (zlen_nonneg a) ltac:(lia)). lia.
 Qed.
 
 Lemma records_seen nm es : fold_right (fun y n => n + 1 + y_naux y) 0 (map (sym_of nm) es) = nrecords es.
@@ -520,5 +526,5 @@ Proof.
   - apply Forall_forall. intros y Hy. apply in_map_iff in Hy. destruct Hy as [e [<- He]].
     apply (Permutation_in _ (sort_perm _)) in He.
     destruct (Forall2_in_l _ _ _ _ G He) as [gn [_ [_ [_ [Hc [_ [Ha _]]]]]]].
-    cbn [sym_of y_class y_naux]. unfold naux_of. rewrite Hc, Ha. split; reflexivity.
+    cbn [sym_of y_class y_naux]. unfold naux_of, naux. rewrite Hc, Ha. split; reflexivity.
 Qed.
